@@ -143,6 +143,10 @@ class Raises:
                         changed = True
             if not changed:
                 break
+        self.op_excs = {}
+        for op in self.partial_ops:
+            if op.kind in ('subscript', 'del-subscript'):
+                self.op_excs.setdefault(id(op.node), set()).add(op.exc)
 
     # ------------------------------------------------------------------
     def _func(self, fi):
@@ -510,6 +514,9 @@ class Raises:
             # Mapping.get/__contains__ swallow KeyError from __getitem__
             return
         excs = self.ext.get(name, 'MISSING')
+        if name.endswith('.__init__') and \
+                name[:-9] in extlib.frames():
+            excs = self._frame_ctor(fi, call, name[:-9])
         if excs == 'MISSING':
             base = name.split('.')[-1]
             if base in HARMLESS_METHODS:
@@ -518,6 +525,25 @@ class Raises:
             return
         for x in sorted(excs or ()):
             self._op(fi, call, 'external %s' % name, x, frames, out)
+
+    def _frame_ctor(self, fi, call, cls):
+        sid = None
+        arg = None
+        fields = extlib.frames()[cls]['fields']
+        pos = fields.index('stream_id') if 'stream_id' in fields else 0
+        if len(call.args) > pos:
+            arg = call.args[pos]
+        for k in call.keywords:
+            if k.arg == 'stream_id':
+                arg = k.value
+        if arg is None and cls in ('SettingsFrame', 'PingFrame'):
+            sid = 0
+        elif arg is not None:
+            v = self.m.try_fold(arg, fi.module, fi.cls, default=None)
+            if isinstance(v, int) and not isinstance(v, bool):
+                sid = v
+        extra = any(k.arg in ('settings', 'flags') for k in call.keywords)
+        return extlib.frame_ctor_raises(cls, sid, extra)
 
     def _method(self, fi, call, name, frames, out):
         base = name.split('.')[-1]
